@@ -18,5 +18,9 @@ theorem flag_snapReadLocked : snapReadLocked = true := by decide +kernel
 theorem flag_appendCopyShareMutex : appendCopyShareMutex = true := by decide +kernel
 theorem flag_fillOpsUnderCollLock : fillOpsUnderCollLock = true := by decide +kernel
 theorem flag_keyTableLocked : keyTableLocked = true := by decide +kernel
+theorem flag_backfillLatched : backfillLatched = true := by decide +kernel
+theorem flag_indexGrownUnderLock : indexGrownUnderLock = true := by decide +kernel
+theorem flag_capacityUnderCollLock : capacityUnderCollLock = true := by decide +kernel
+theorem flag_registryCopyOnWrite : registryCopyOnWrite = true := by decide +kernel
 
 end ColumnVerif.Props.C18skel
